@@ -62,6 +62,12 @@ CLAIMS = {
         note="Trusted: os.path function semantics. Symlinks are outside the statement. A correct confinement test in an idiom outside the table yields UNDECIDED.",
         ref="DESIGN.md section 3, C07",
     ),
+    "C14": dict(
+        technique="static analysis: writer/reader validator agreement through the resolver, attribute-dependence of the digest, path facts of file_response for RFC 7232 precedence, per-member normalisation shape of the If-None-Match matcher",
+        text="Histories over a file clock are not decidable statically; the check decides structural necessary conditions whose violation produces a stale 304 or a missed revalidation for some history: the compared ETag is generate_etag of the very stat_result that is served and the emitted ETag/Last-Modified come from the same function and stat; the digest depends on both st_mtime and st_size; If-Modified-Since is compared with st_mtime/st_ctime with int() truncation on both sides and <=; on every 304 path decided by If-Modified-Since the If-None-Match header is known absent (defect F21, repaired); weak prefix and quotes are stripped per list member, '*' matches, empty never matches (defect F22, repaired); a 304 path builds Response(304) and never a FileResponse.",
+        note="Partial by construction: decides the mechanism, not the outcome of arbitrary modification/request histories. Trusted: os.stat field meanings, email.utils date parsing.",
+        ref="DESIGN.md section 3, C14",
+    ),
 }
 
 NOT_APPLICABLE = {
